@@ -21,6 +21,9 @@ def fresh(name):
     """A new GroupLibrary object for a shipped library (or a path)."""
     import pgradd.ThermoChem  # noqa: registers the property set
     from pgradd.GroupAdd.Library import GroupLibrary
+    if os.environ.get('VMON_STDOUT') == 'closed':
+        # the closed-stdout configuration: the loader sees it as it is
+        return GroupLibrary.Load(name)
     with contextlib.redirect_stdout(io.StringIO()):
         return GroupLibrary.Load(name)
 
